@@ -594,6 +594,12 @@ func (c *Client) submitPersisted(packet net.Buffers, out outbound) (exchange <-c
 	if !ok {
 		return nil, ErrClosed
 	}
+	if c.ctx.Err() != nil {
+		// Close or Disconnect got applied, yet ReadSlices
+		// did not terminate the sequence (semaphore) yet.
+		out.seqSem <- seq // unlock
+		return nil, ErrClosed
+	}
 	verifYield("q.seq")
 	defer func() {
 		out.seqSem <- seq // unlock with updated
